@@ -2,26 +2,49 @@
 
 Mechanism: breezy/transform.py:_alter_files (keep_content / backup decision of
 revert), TreeTransform._available_backup_name + osutils.available_backup_name
-(crates/osutils, rebuilt per run), InventoryWorkingTree.remove /
-GitWorkingTree.remove (safety test for changed / unknown files),
-Merge3Merger (content decision, _dump_conflicts helper files), uncommit.
+(crates/osutils, rebuilt per run), BzrDir/GitDir._available_backup_name,
+InventoryWorkingTree.remove / GitWorkingTree.remove (safety test for changed /
+unknown files), Merge3Merger (content decision, _dump_conflicts helper files),
+the conflict resolution of the transform (`.moved`, "not deleting"), uncommit.
 
-T1: the branch of _alter_files for a working file whose file id is absent from
-    the basis (`if basis_path is None:`) is read from the source and written to
-    Generated/C12.lean as the flag `keepWhenNoBasis`; Props/C12T1.lean proves
-    the flag record is one of the two variants the theorems cover.
-T2: (a) revert: for every working-tree file in the scope of a generated revert
-    the inputs of the keep/backup decision (wt kind, backups, target kind,
-    target versioned, merge-modified hash, working hash, basis hash or "absent
-    from basis") are computed from the trees through public API, the Lean model
-    decides delete / backup / keep-in-place, and the fate observed after the
-    real `WorkingTree.revert` (content still at a tree path / content in a new
-    `.~N~` file / gone) must agree; (b) remove: the same for
-    `WorkingTree.remove` with keep / force / neither; (c) backup names:
-    osutils.available_backup_name (Rust) and tt._available_backup_name against
-    the model for generated sets of taken names; (d) merge content decision:
-    fate of THIS content for generated (base, this, other) texts against the
-    model (kept / replaced by OTHER / merged / conflict helpers).
+T1: the statements of _alter_files that compute `keep_content`, and the dispatch
+    on the working file (delete_contents / rename to tt._available_backup_name
+    + create_path / leave in place), are translated from the AST into
+    Generated/C12.lean (`sourceKeepContent`, `sourceRevertAction`, and the
+    variant flag `sourceFlags` of the `basis_path is None` branch).
+    Props/C12T1.lean proves them equal to the model for ALL inputs
+    (source_keep_content_eq, source_revert_action_eq, source_flags_fixed) and
+    restates the property for the source's own functions
+    (revert_keeps_user_content_source, revert_dir_keeps_user_bytes_source).
+    A source change that alters the decision - e.g. a return to the variant
+    that deletes content absent from the basis - makes that module fail (the
+    driver still builds; the oracle then names the concrete lost content,
+    corpus/C12 first).  A shape the translator does not understand yields a
+    definition the theorems cannot be proved for (reported as a broken tie).
+T2: (a) revert: for every versioned working-tree entry (regular file, symlink,
+    or missing) in the scope of a generated revert the inputs of the decision
+    are gathered: `changed_content`, both kinds and `versioned[0]` from the same
+    `iter_changes` call `_alter_files` makes (the harness's own recomputation is
+    kept beside it and disagreements are counted), merge-modified hash, working
+    hash, basis hash or "absent from basis" through public API; the Lean model
+    decides delete / backup / keep-in-place, and the fate observed after the real
+    `WorkingTree.revert` (text or link target still at a tree path / only under
+    a new `.~N~` name / gone; for a missing entry: no backup name appears) must
+    agree; (b) remove: the same for `WorkingTree.remove` with keep / force /
+    neither, with `versioned[0]` / `changed_content` taken from the records of
+    the `iter_changes` call `remove` makes (a path no record names counts as
+    clean, as in the code; where that misdescribes the state it is listed in
+    the evidence key remove_inputs_misdescribe_state); (c) backup names:
+    osutils.available_backup_name (Rust) on generated taken-sets, and - asked
+    directly on real directories with generated sibling names -
+    `tt._available_backup_name` (siblings on disk and children created in the
+    transform) and `controldir._available_backup_name`; (c') the whole backup
+    action: the directory listing after ONE real revert / ONE real remove over
+    many such directories against the model's backupAndReplace / renameToBackup
+    (name chosen, old bytes under it, new bytes under the old name, every
+    sibling unchanged, no extra entry); (d) merge content decision: fate of THIS
+    content for generated (base, this, other) texts against the model (kept /
+    replaced by OTHER / merged / conflict helpers).
     (e) merge hashes: after every merge-like command of the two-step sequences
     `WorkingTree.merge_modified()` is compared per path with the model's rule
     (recorded iff the incoming revision changed the file's text or added it;
@@ -30,44 +53,94 @@ Two-step sequences (own stream, every seed, corpus/C12/seq-min-*.json first):
     a checkout / branch with uncommitted edits receives, by pull / merge
     --force / update / switch (optionally twice), revisions that rename or
     move edited files (in place, into a new or existing directory, out of a
-    directory, renamed again), change other files and add files; then revert
-    (all / the moved path, backups on), remove of the moved path, or a second
-    merge.  User contents are tracked over the whole sequence: a content must
-    stay verbatim below the tree root after every step, until a merge-like step
-    merges it into a text (from then on it is "written by a merge").
+    directory, renamed again), change other files, add files (with an unknown
+    user file - and sometimes `<name>.moved` - already at that path) and delete
+    a whole directory that holds an unknown user file; then revert (all / the
+    moved path, backups on), remove of the moved path, or a second merge.  User
+    contents are tracked over the whole sequence: a content must stay verbatim
+    below the tree root after every step, until a merge-like step merges it
+    into a text (from then on it is "written by a merge").
 Oracle: histories (bzr 2a and git trees) with modified, added, re-added,
-    unknown and previously merged files; commands revert (all / selected /
-    -r OLD, backups on/off), remove (keep / force / default), merge, pull,
-    update, switch, uncommit.  Every content the harness wrote as a user edit
-    must be found verbatim in some file below the tree root afterwards (tree,
-    `.~N~` backups, `.THIS/.OTHER/.BASE`, `.moved`), or - for merge-like
-    commands - every line of the edit must appear in one file (clean three-way
-    merge); exceptions: the user asked to discard (revert --no-backup on
-    versioned files in scope, remove --force).  uncommit: directory snapshot
-    identical.
+    unknown and previously merged files; unknown files at the paths the command
+    is going to create (incoming adds of merge / pull / update / switch, paths
+    revert restores after `rm` / `mv`), `<path>.moved` already taken, unknown
+    files deep inside directories the incoming revision or `remove` deletes,
+    files replaced by a symlink or by a directory with an unknown file inside,
+    edited files with a flipped exec bit, numbered backups that already exist;
+    commands revert (all / selected / -r OLD, backups on/off), remove (keep /
+    force / default; directories holding unknown files are selected often),
+    merge, pull, update, switch, uncommit.  Every content the harness wrote as a
+    user edit must be found verbatim in some file below the tree root afterwards
+    (tree, `.~N~` backups, `.THIS/.OTHER/.BASE`, `.moved`, kept directories), or
+    - for merge-like commands - every line of the edit must appear in one file
+    (clean three-way merge); exceptions: the user asked to discard (revert
+    --no-backup on versioned files in scope, remove --force).
+    uncommit (ORACLE ONLY, nothing modelled): standalone tree / bound checkout /
+    lightweight checkout, revno None / 1 / 2, dry_run, local, keep_tags, with
+    and without pending merges: bytes and symlinks identical AND a read-only
+    guard: inode, size, mode, mtime and ctime of every entry below the tree root
+    outside the control directory (root directory included) are unchanged, so a
+    rewrite with the same bytes, a chmod, a temp file created and removed are
+    all seen.
+    Exceptions of the real commands: expected ones (PathsNotVersionedError for an
+    unversioned selection, LocalRequiresBoundBranch) are counted; any other
+    class is counted as `unexpected-exception:…` and listed (id, class, trace
+    tail) in the evidence key unexpected_exceptions - the content oracle still
+    runs on what the command left behind, so a loss is a violation.
 
-Finding repaired by a fix: commit in /repo (corpus/C12 holds the two scenarios,
-run first): revert with backups deleted the content of a working file whose id
-is absent from the basis but present in the revert target.
+Findings:
+  * repaired by a fix: commit in /repo (corpus/C12 holds the two scenarios, run
+    first): revert with backups deleted the content of a working file whose id
+    is absent from the basis but present in the revert target.
+  * OPEN, family `git-unknown-file-overwritten-by-incoming-add`: in a git tree,
+    merge / pull of a revision that adds a file at a path where the user has an
+    unversioned file overwrites that file (no conflict, no `.moved`); bzr trees
+    move it aside.  Cause: Merge3Merger._compute_transform gives the incoming
+    entry the trans_id of the tree path, then deletes "its" old contents.
+  * OPEN, family `git-unknown-file-at-unversioned-path-deleted-by-merge`: the
+    same mechanism with another trigger (found by the thorough tier): THIS
+    removed (or renamed away) f and has a new unknown file at f, the incoming
+    revision modifies f: the contents conflict writes f.BASE / f.OTHER and the
+    unknown f is deleted; bzr trees leave it in place.
+  * OPEN, family `bzr-remove-deletes-unknown-file-at-removed-path`: `brz rm f;
+    echo new > f; brz rm f` deletes the new unknown file without --force:
+    iter_changes(want_unversioned=True) does not report an unversioned file at
+    the path of a removed entry, InventoryWorkingTree.remove then falls through
+    to delete_any (Lean: remove_trusts_reported_attributes_witness).
+  Not losses, listed as unexpected exceptions: git remove / walkdirs on a tree
+  with conflicts (AttributeError: ConflictedIndexEntry.mode), git merge-like
+  commands over a file replaced by a symlink / directory (MalformedTransform
+  'overwrite'), revert after a merge-written file was replaced by a directory
+  (IsADirectoryError in merge_modified()).
 
-Mutants this was built against (scratch worktree with the proposed fix applied,
-seed 0; o = caught by the oracle with a concrete lost content, t = by the
-correspondence): keep_content when the hash EQUALS the basis (o,t);
-`backups and target_kind is None` (o,t); merge_modified test inverted (o,t);
-bzr remove: changed files not added to files_to_backup (o,t); git remove: the
-same (o,t); bzr remove: safety scan skipped (o,t); bzr remove: rmtree of a
-non-empty directory without force (o,t); backup branch of _alter_files deleting
-instead of renaming (o,t); _dump_conflicts without the THIS helper (o,t);
-_has_named_child ignoring the file system, so the backup name collides (t);
-no-basis branch keeping content only for a versioned target (o,t);
-_apply_insertions reporting renamed files in modified_paths, so that
-write_modified records them as written by the merge and a later revert drops
-the edit without backup (seeded by the coordinator; o,t on every seed through
-the two-step sequences).  Equivalent
-mutants (stay clean, by design of the code): dropping the `versioned[0] is
-False` branch of remove (the `changed_content` branch covers unknown and added
+Mutants this was built against (scratch worktree; o = caught by the oracle with a
+concrete lost content, t = by the correspondence, T1 = by the translated-source
+theorems): keep_content when the hash EQUALS the basis (o,t); `backups and
+target_kind is None` (o,t); merge_modified test inverted (o,t); bzr remove:
+changed files not added to files_to_backup (o,t); git remove: the same (o,t);
+bzr remove: safety scan skipped (o,t); bzr remove: rmtree of a non-empty
+directory without force (o,t); backup branch of _alter_files deleting instead of
+renaming (o,t); _dump_conflicts without the THIS helper (o,t); _has_named_child
+ignoring the file system, so the backup name collides (t); no-basis branch
+keeping content only for a versioned target (o,t); _apply_insertions reporting
+renamed files in modified_paths, so that write_modified records them as written
+by the merge and a later revert drops the edit without backup (seeded by the
+coordinator; o,t on every seed through the two-step sequences).
+Second round (worktree with the two patches of the open findings applied):
+the conflict pass deleting an unknown file that is in the way of a created entry instead of moving it to
+`<name>.moved` (o: switch / merge / revert lose the unknown file); controldir._available_backup_name
+not looking at what exists, so `remove` renames onto an older numbered backup (o: the older backup's
+content is lost; t: 55 lines); uncommit rewriting every versioned file with its own bytes (o: read-only
+guard, inode / mtime / ctime changed - the byte comparison alone is clean); the keep_content variant
+that keeps content absent from the basis only when the target has nothing (o: corpus scenario; T1: the
+five source theorems fail, 27/32, no crash); tt._available_backup_name skipping the existence check for
+`*.~2~` (o: helper returned an existing name; t); a directory that the incoming revision deletes and
+that holds unknown files deleted anyway instead of "Not deleting" (o: d/uk lost after switch).
+Harmless rewrite that stays clean with 32/32: `(target_kind is None or backups) and wt_kind == "file"`.
+Equivalent mutants (stay clean, by design of the code): dropping the `versioned[0]
+is False` branch of remove (the `changed_content` branch covers unknown and added
 files).  Harmless rewrites that stay clean: remove() using sorted(); the
-keep_content condition reordered.
+keep_content condition reordered (T1 still proves the equality).
 """
 import ast
 import hashlib
@@ -80,19 +153,30 @@ from vlib import env
 
 THEOREMS = [
     "revert_keeps_user_content", "revert_keeps_user_content_partial", "revert_no_basis_witness",
-    "revert_no_backup_keeps_added", "revert_deletes_only_unedited_or_on_request",
+    "revert_no_backup_keeps_added", "revert_deletes_only_unedited_or_on_request", "revert_nonfile_never_kept",
     "firstFree_sound", "firstFree_congr", "firstFree_total", "backup_name_fresh",
-    "remove_safe", "remove_keep", "remove_deletes_only_clean",
-    "merge_keeps_local", "merge_helper_iff", "uncommit_pure",
+    "rename_to_backup_spec", "backup_and_replace_spec", "revert_dir_keeps_user_bytes", "revert_dir_siblings_untouched",
+    "remove_dir_keeps_unsafe_bytes",
+    "remove_safe", "remove_keep", "remove_deletes_only_clean", "remove_trusts_reported_attributes_witness",
+    "remove_never_deletes_unversioned_fixed", "remove_variants_agree_on_versioned",
+    "merge_keeps_local", "merge_helper_iff",
     "merge_records_only_written", "move_only_merge_then_revert_keeps", "merge_written_then_revert_may_discard",
 ]
-T1_THEOREMS = ["source_flags_covered"]
+T1_THEOREMS = ["source_flags_fixed", "source_keep_content_eq", "source_revert_action_eq", "revert_keeps_user_content_source",
+               "revert_dir_keeps_user_bytes_source"]
 RUST = ("osutils-py",)
 RULE = ("scenario = (format, random two-revision history with a side branch, local state with modified / added / "
-        "re-added / unknown / merged files, command with options); distinct by canonical scenario; non-trivial = "
-        "at least one user-edited content is in the scope of the command")
-ASSUMPTIONS = ["contents the harness writes as user edits carry unique marker lines; merge3 output for disjoint edits contains both edits"]
-TRUSTED = ["whole-command composition (locking, dirstate, index) is exercised, not modelled; the model is per-file decisions"]
+        "re-added / unknown / merged files, unknown files in the way of incoming adds and inside deleted directories, "
+        "kind changes, command with options); distinct by canonical scenario; non-trivial = "
+        "at least one user-edited content is in the scope of the command; directory cases: non-trivial = a numbered "
+        "backup of the name already exists")
+ASSUMPTIONS = ["contents the harness writes as user edits carry unique marker lines; merge3 output for disjoint edits contains both edits",
+               "uncommit read-only guard: a write that leaves bytes, size, inode, mtime and ctime of an entry unchanged is not seen"]
+TRUSTED = ["whole-command composition (locking, dirstate, index, conflict resolution of the transform: .moved / not deleting) is "
+           "exercised by the content oracle, not modelled; the model is per-file decisions plus the backup action on one directory listing",
+           "uncommit is not modelled at all: the clause 'never modifies working-tree files' is checked on the real command only",
+           "the T1 translator (harness/checks/c12.py: _keep_expr/_action_expr) maps the conditions of _alter_files to model attributes by "
+           "a fixed table of atoms; the attributes themselves are gathered by the harness (T2)"]
 
 FILES = ["f0", "f1", "f2", "f3", "d/g0", "d/g1"]
 
@@ -150,7 +234,80 @@ def gen_scenario(seed_tuple):
         sc["mode"] = rng.choice(["safe", "safe", "keep", "force"])
         cand = live + [u[0] for u in sc["unknown"]] + [a[0] for a in sc["added"]] + ["d"]
         sc["select"] = sorted(set(rng.sample(cand, rng.randint(1, min(3, len(cand))))))
+    _extend_scenario(sc, seed_tuple, live, tok)
     return sc
+
+
+def _extend_scenario(sc, seed_tuple, live, tok):
+    """unknown files in the way of what the command creates or deletes, kind changes, exec bits, uncommit
+    options.  Drawn from a second generator so that the scenarios of corpus/C12 keep their shape."""
+    rng = random.Random(repr(("ext",) + tuple(seed_tuple)))
+    cmd, files = sc["cmd"], sc["files"]
+    has_d = any(x.startswith("d/") for x in live)
+    # ---- incoming revisions: more adds, whole-directory deletions
+    sc["other_add2"] = ["d/o1"] if has_d and rng.random() < 0.35 else []
+    sc["other_deldir"] = any(f.startswith("d/") for f in files) and rng.random() < 0.3
+    sc["main_add"] = ["n0"] if rng.random() < 0.5 else []
+    sc["main_deldir"] = cmd in ("pull", "revert") and any(f.startswith("d/") for f in files) and rng.random() < 0.3
+    sc["rev3_add"] = ["n1"] if rng.random() < 0.6 else []
+    sc["rev3_deldir"] = cmd == "update" and has_d and rng.random() < 0.3
+    if sc["main_deldir"]:
+        has_d = False
+    # ---- unknown user files at the paths the command is going to create
+    incoming = {"merge": sc["other_add"] + sc["other_add2"], "switch": sc["other_add"] + sc["other_add2"],
+                "pull": sc["main_add"], "update": sc["rev3_add"]}.get(cmd, [])
+    sc["inway"] = []
+    for pth in incoming:
+        if rng.random() < 0.7:
+            sc["inway"].append([pth, tok("UNK"), rng.random() < 0.3])      # [path, token, also `<path>.moved`]
+    # ---- unknown files inside the directory the command is going to delete
+    sc["unknown_deep"] = []
+    deldir = (cmd in ("merge", "switch") and sc["other_deldir"]) or (cmd == "pull" and sc["main_deldir"]) \
+        or (cmd == "update" and sc["rev3_deldir"])
+    if (deldir or cmd == "remove" or rng.random() < 0.2) and (has_d or cmd == "pull"):
+        for pth in ["d/u2", "d/sub/u3"]:
+            if rng.random() < 0.6:
+                sc["unknown_deep"].append([pth, tok("UNK")])
+    # ---- local operations of the user on files that are otherwise untouched
+    busy = {e[0] for e in sc["edits"]} | {x[0] for x in sc["readd"]}
+    free = [f for f in live if f not in busy]
+    rng.shuffle(free)
+    sc["local_ops"] = []
+    nops = rng.choice([0, 0, 1, 1, 2]) if cmd in ("revert", "remove") else rng.choice([0, 0, 0, 1])
+    kinds = ["rm-unknown", "mv-unknown", "to-symlink", "to-dir", "chmod-edit"]
+    for f in free[:nops]:
+        sc["local_ops"].append([rng.choice(kinds), f, tok("EDIT")])
+    # a third generator (so that nothing above shifts): one more otherwise untouched file becomes a symlink or
+    # is deleted from disk - the non-file branches of the revert decision
+    rng3 = random.Random(repr(("ext3",) + tuple(seed_tuple)))
+    left = [f for f in free[nops:]]
+    if cmd == "revert" and left and rng3.random() < 0.6:
+        sc["local_ops"].append([rng3.choice(["to-symlink", "delete"]), left[0], tok("EDIT")])
+    if cmd in ("merge", "switch", "pull", "update") and rng3.random() < 0.3:
+        # the user removed (or renamed away) a file the incoming revision modifies, and has a new unknown file there
+        inc_mod = {"merge": sc["other_mod"], "switch": sc["other_mod"], "pull": sc["main_mod"]}.get(cmd, [])
+        cand = [f for f in left if f in inc_mod]
+        if cand:
+            sc["local_ops"].append([rng3.choice(["rm-unknown", "mv-unknown"]), cand[0], tok("EDIT")])
+    if cmd == "remove":
+        # directories that hold unknown files, and the kind-changed paths, are what `remove` has to be careful with
+        sel = set(sc["select"])
+        if (sc["unknown_deep"] or any(u[0].startswith("d/") for u in sc["unknown"])) and rng.random() < 0.7:
+            sel.add("d")
+        for op, f, _t in sc["local_ops"]:
+            if rng.random() < 0.6:
+                sel.add(f)
+        sc["select"] = sorted(sel)
+    if cmd == "revert" and sc["select"] is not None:
+        sel = set(sc["select"])
+        for op, f, _t in sc["local_ops"]:
+            if rng.random() < 0.7:
+                sel.add(f)
+        sc["select"] = sorted(sel)
+    if cmd == "uncommit":
+        sc["unc"] = dict(layout=rng.choice(["standalone", "standalone", "bound", "lightweight"]),
+                         revno=rng.choice([None, None, 1, 2]), dry_run=rng.random() < 0.2,
+                         local=rng.random() < 0.3, keep_tags=rng.random() < 0.3, pending=rng.random() < 0.3)
 
 
 def _write(root, rel, data):
@@ -184,24 +341,38 @@ def build(sc):
     os.rmdir(odir)
     other_cd = main.controldir.sprout(odir)
     other = other_cd.open_workingtree()
+    odeldir = sc.get("other_deldir") and os.path.isdir(os.path.join(odir, "d"))
     for f in sc["other_mod"]:
-        _write(odir, f, base_text(f).replace("L0 v0", "L0 other"))
+        if not (odeldir and f.startswith("d/")):
+            _write(odir, f, base_text(f).replace("L0 v0", "L0 other"))
     for f in sc["other_del"]:
-        other.remove([f], keep_files=False, force=True)
-    for f in sc["other_add"]:
-        _write(odir, f, "other new\n")
+        if not (odeldir and f.startswith("d/")):
+            other.remove([f], keep_files=False, force=True)
+    if odeldir:
+        other.remove(["d"], keep_files=False, force=True)
+    for f in sc["other_add"] + ([] if odeldir else sc.get("other_add2", [])):
+        _write(odir, f, "other new %s\n" % f)
         other.add([f])
-    other_rev = other.commit("other") if (sc["other_mod"] or sc["other_del"] or sc["other_add"]) else other.commit("other-empty")
+    other_rev = other.commit("other") if other.has_changes() else other.commit("other-empty")
     # main rev2
     ids = {}
+    mdeldir = sc.get("main_deldir") and os.path.isdir(os.path.join(root, "d"))
     for f in sc["main_mod"]:
-        _write(root, f, base_text(f, 1))
+        if not (mdeldir and f.startswith("d/")):
+            _write(root, f, base_text(f, 1))
     for f in sc["main_del"]:
         if fmt != "git":
             ids[f] = main.path2id(f)
-        main.remove([f], keep_files=False, force=True)
+        if not (mdeldir and f.startswith("d/")):
+            main.remove([f], keep_files=False, force=True)
     for f in sc["main_ren"]:
-        main.rename_one(f, f + "r")
+        if not (mdeldir and f.startswith("d/")):
+            main.rename_one(f, f + "r")
+    if mdeldir:
+        main.remove(["d"], keep_files=False, force=True)
+    for f in sc.get("main_add", []):
+        _write(root, f, "main new %s\n" % f)
+        main.add([f])
     rev2 = main.commit("rev2")
     res = dict(rev1=rev1, rev2=rev2, other_rev=other_rev, other=other.branch)
     cmd = sc["cmd"]
@@ -216,9 +387,19 @@ def build(sc):
         pdir = env.fresh_dir("pull")
         os.rmdir(pdir)
         wt = main.controldir.sprout(pdir, revision_id=rev1).open_workingtree()
+    elif cmd == "uncommit" and sc.get("unc"):
+        unc = sc["unc"]
+        try:
+            main.branch.tags.set_tag("t2", rev2)
+        except Exception:
+            pass
+        if unc["layout"] in ("bound", "lightweight"):
+            cdir = env.fresh_dir("co")
+            os.rmdir(cdir)
+            wt = main.branch.create_checkout(cdir, lightweight=(unc["layout"] == "lightweight"))
     res["main"] = main
     wroot = wt.basedir
-    if sc.get("premerge"):
+    if sc.get("premerge") or (cmd == "uncommit" and sc.get("unc", {}).get("pending")):
         try:
             wt.merge_from_branch(res["other"], force=True)
         except Exception as e:
@@ -256,8 +437,57 @@ def build(sc):
                 except Exception:       # the id is in use (a conflict helper of the previous merge carries it)
                     wt.add([f])
                 user[f] = token + "\nre-added\n"
+    present = lambda p: os.path.lexists(os.path.join(wroot, p))
+    pdir = lambda p: os.path.isdir(os.path.join(wroot, os.path.dirname(p))) and not os.path.islink(os.path.join(wroot, os.path.dirname(p)))
+    # unknown files where the command is going to create something, and deep inside directories
+    for p, token, moved_too in sc.get("inway", []):
+        if pdir(p) and not present(p):
+            _write(wroot, p, token + "\nunknown in the way\n")
+            user[p] = token + "\nunknown in the way\n"
+            if moved_too and not present(p + ".moved"):
+                _write(wroot, p + ".moved", token + "\nunknown .moved\n")
+                user[p + ".moved"] = token + "\nunknown .moved\n"
+    for p, token in sc.get("unknown_deep", []):
+        if os.path.isdir(os.path.join(wroot, "d")) and not present(p):
+            _write(wroot, p, token + "\nunknown deep\n")
+            user[p] = token + "\nunknown deep\n"
+    links = {}
+    for op, f, token in sc.get("local_ops", []):
+        if cmd == "pull" and f.endswith("r") and f[:-1] in sc["main_ren"]:
+            f = f[:-1]
+        full = os.path.join(wroot, f)
+        if not (os.path.isfile(full) and not os.path.islink(full) and wt.is_versioned(f)) or f in user:
+            continue
+        if op == "rm-unknown":
+            wt.remove([f], keep_files=False, force=True)
+            _write(wroot, f, token + "\nnew unknown at a removed path\n")
+            user[f] = token + "\nnew unknown at a removed path\n"
+        elif op == "mv-unknown":
+            wt.rename_one(f, f + "x")
+            _write(wroot, f, token + "\nnew unknown at a renamed path\n")
+            user[f] = token + "\nnew unknown at a renamed path\n"
+        elif op == "to-symlink":
+            os.unlink(full)
+            os.symlink("LINK-" + token, full)
+            links[f] = "LINK-" + token
+        elif op == "to-dir":
+            os.unlink(full)
+            _write(wroot, f + "/inner", token + "\nunknown inside a new directory\n")
+            user[f + "/inner"] = token + "\nunknown inside a new directory\n"
+        elif op == "delete":
+            os.unlink(full)
+        elif op == "chmod-edit":
+            text = apply_edit(open(full).read(), "bottom", token)
+            _write(wroot, f, text)
+            os.chmod(full, 0o755)
+            user[f] = text
+    res["links"] = links
     if cmd == "update":
         _write(root, sc["files"][0] if sc["files"][0] not in sc["main_del"] and sc["files"][0] not in sc["main_ren"] else "newmain", "main rev3\n")
+        for f in sc.get("rev3_add", []):
+            _write(root, f, "main rev3 new %s\n" % f)
+        if sc.get("rev3_deldir") and os.path.isdir(os.path.join(root, "d")):
+            main.remove(["d"], keep_files=False, force=True)
         main.smart_add([root])
         res["rev3"] = main.commit("rev3")
     res["wt"] = wt
@@ -278,6 +508,37 @@ def all_files(root, wt):
                 continue
             with open(p, "rb") as fh:
                 out[r] = fh.read().decode("utf-8", "replace")
+    return out
+
+
+def meta_snapshot(root, wt):
+    """{relpath: (mode, inode, size, mtime_ns, ctime_ns, link target)} of everything below the tree root
+    outside the control directory (the root directory itself is ""): any write, truncation, chmod, rename,
+    creation or removal changes an entry (ctime cannot be set from user space)"""
+    out = {}
+    for dp, dn, fn in os.walk(root):
+        rel = os.path.relpath(dp, root)
+        rel = "" if rel == "." else rel
+        dn[:] = [d for d in dn if not wt.is_control_filename((rel + "/" + d) if rel else d)]
+        for name in [None] + dn + fn:
+            r = rel if name is None else ((rel + "/" + name) if rel else name)
+            full = os.path.join(root, r)
+            st = os.lstat(full)
+            out[r] = [st.st_mode, st.st_ino, st.st_size, st.st_mtime_ns, st.st_ctime_ns,
+                      os.readlink(full) if os.path.islink(full) else None]
+    return out
+
+
+def all_links(root, wt):
+    out = {}
+    for dp, dn, fn in os.walk(root):
+        rel = os.path.relpath(dp, root)
+        rel = "" if rel == "." else rel
+        for name in dn + fn:
+            r = (rel + "/" + name) if rel else name
+            if os.path.islink(os.path.join(root, r)):
+                out[r] = os.readlink(os.path.join(root, r))
+        dn[:] = [d for d in dn if not wt.is_control_filename((rel + "/" + d) if rel else d) and not os.path.islink(os.path.join(dp, d))]
     return out
 
 
@@ -306,7 +567,9 @@ def run_command(sc, b):
             switch.switch(wt.controldir, b["other"], force=True)
         elif cmd == "uncommit":
             from breezy.uncommit import uncommit
-            uncommit(wt.branch, tree=wt)
+            unc = sc.get("unc") or {}
+            uncommit(wt.branch, tree=wt, revno=unc.get("revno"), dry_run=bool(unc.get("dry_run")),
+                     local=bool(unc.get("local")), keep_tags=bool(unc.get("keep_tags")))
     except Exception as e:
         import traceback
         err = "%s: %s" % (type(e).__name__, traceback.format_exc()[-400:])
@@ -321,7 +584,10 @@ def sha(text):
 
 
 def revert_facts(sc, b):
-    """[(path, inputs-dict)] for working files in the scope of the revert"""
+    """[(path, inputs-dict)] for the versioned working-tree entries (files, symlinks, missing) in the scope
+    of the revert.  `changed`, the kinds and `tversioned` are taken from the same `iter_changes` call
+    `_alter_files` makes; the harness's own recomputation is kept beside it (`changed_re`) and disagreements
+    are counted"""
     from breezy.tree import InterTree
     from breezy.workingtree import WorkingTree
     wt = WorkingTree.open(b["wt"].basedir)
@@ -330,45 +596,95 @@ def revert_facts(sc, b):
         basis = wt.basis_tree()
         target = wt.branch.repository.revision_tree(b["rev1"]) if sc["old"] else basis
         with basis.lock_read(), target.lock_read():
-            mm = wt.merge_modified() if wt.supports_merge_modified() else {}
-            for p, text in sorted(all_files(wt.basedir, wt).items()):
-                if sc["select"] is not None and not any(p == s or p.startswith(s + "/") for s in sc["select"]):
+            try:
+                mm = wt.merge_modified() if wt.supports_merge_modified() else {}
+            except OSError:
+                mm = {}       # a recorded file was replaced by a directory: merge_modified() (and the command) raise
+            try:
+                changes = {c.path[1]: c for c in wt.iter_changes(target, specific_files=sc["select"]) if c.path[1] is not None}
+                ic = True
+            except Exception:
+                changes, ic = {}, False       # e.g. a selected path is not versioned: the command refuses too
+            files = all_files(wt.basedir, wt)
+            links = all_links(wt.basedir, wt)
+            for p in sorted(wt.all_versioned_paths()):
+                if p == "" or (sc["select"] is not None and not any(p == s or p.startswith(s + "/") for s in sc["select"])):
                     continue
-                if not wt.is_versioned(p):
-                    continue        # revert works on iter_changes of versioned entries
+                full = os.path.join(wt.basedir, p)
+                if p in links:
+                    wk, thing = "symlink", ["l", links[p]]
+                elif p in files:
+                    wk, thing = "file", ["f", files[p]]
+                elif not os.path.lexists(full) and not os.path.islink(os.path.dirname(full)):
+                    wk, thing = None, ["~", None]
+                else:
+                    continue        # directories: their fate is decided by the conflict resolution of the transform
                 if sc.get("premerge") and p.endswith((".THIS", ".OTHER", ".BASE")):
                     # helper files of the earlier merge: WorkingTree.revert resolves the conflicts it
                     # reverted and that removes their helpers - not a decision of _alter_files
                     continue
-                tpath = InterTree.get(target, wt).find_source_path(p)
-                bpath = InterTree.get(basis, wt).find_source_path(p)
+                try:
+                    tpath = InterTree.get(target, wt).find_source_path(p)
+                    bpath = InterTree.get(basis, wt).find_source_path(p)
+                except Exception:
+                    continue        # git: a versioned path that is missing on disk cannot be looked up
                 tkind = target.kind(tpath) if tpath is not None else None
-                ttext = target.get_file_text(tpath).decode() if tkind == "file" else None
-                changed = (tkind != "file") or ttext != text
-                btext = basis.get_file_text(bpath).decode() if bpath is not None and basis.kind(bpath) == "file" else None
-                out.append((p, dict(changed=changed, backups=sc["backups"], tkind=tkind, tversioned=tpath is not None,
-                                    mm=mm.get(p), wsha=wt.get_file_sha1(p), bpresent=bpath is not None,
-                                    bsha=basis.get_file_sha1(bpath) if bpath is not None and basis.kind(bpath) == "file" else None,
-                                    text=text)))
+                if wk == "file":
+                    ttext = target.get_file_text(tpath).decode() if tkind == "file" else None
+                    changed_re = (tkind != "file") or ttext != files[p]
+                elif wk == "symlink":
+                    changed_re = tkind != "symlink" or target.get_symlink_target(tpath) != links[p]
+                else:
+                    changed_re = tkind is not None
+                c = changes.get(p)
+                if not ic:
+                    changed, tk, tv, source = changed_re, tkind, tpath is not None, "recomputed"
+                elif c is None:
+                    changed, tk, tv, source = False, tkind, tpath is not None, "not-reported"
+                else:
+                    changed, tk, tv, source = bool(c.changed_content), c.kind[0], bool(c.versioned[0]), "iter_changes"
+                    if c.kind[1] != wk:
+                        source = "iter_changes-kind-differs"
+                bfile = bpath is not None and basis.kind(bpath) == "file"
+                out.append((p, dict(changed=changed, changed_re=changed_re, source=source, wkind=wk, backups=sc["backups"],
+                                    tkind=tk, tversioned=tv, mm=mm.get(p) if wk == "file" else None,
+                                    wsha=wt.get_file_sha1(p) if wk == "file" else None, bpresent=bpath is not None,
+                                    bsha=basis.get_file_sha1(bpath) if bfile else None, text=thing)))
     return out
 
 
-def fate(pre_path, text, before, after):
-    """what happened to `text` that was at pre_path: 'kept' (at a tree path that is not a new backup file),
-    'backup' (only in a new *.~N~ file), 'gone'"""
-    holders = [p for p, t in after.items() if t == text]
+_BACKUP_RE = None
+
+
+def fate(pre_path, thing, before, after, links_before=None, links_after=None):
+    """what happened to the working-tree entry `thing` = [kind, payload] that was at pre_path: 'kept' (at a
+    tree path that is not a new backup name), 'backup' (only under a new *.~N~ name), 'gone'.  A regular
+    file is followed by its text, a symlink by its target; for a missing entry ('~') the question is
+    whether a backup name appeared for it"""
+    import re
+    if isinstance(thing, str):
+        thing = ["f", thing]
+    kind, payload = thing
+    is_backup = lambda p, old: bool(re.search(r"\.~\d+~(/|$)", p)) and p not in old
+    if kind == "~":
+        new = [p for p in list(after) + list(links_after or {}) if p.startswith(pre_path + ".~") and is_backup(p, dict(before, **(links_before or {})))]
+        return "backup" if new else "kept"
+    aft, bef = (after, before) if kind == "f" else (links_after or {}, links_before or {})
+    holders = [p for p, t in aft.items() if t == payload]
     if not holders:
         return "gone"
-    import re
-    non_backup = [p for p in holders if not re.search(r"\.~\d+~(/|$)", p) or p in before]
-    if non_backup:
+    if [p for p in holders if not is_backup(p, bef)]:
         return "kept"
     return "backup"
 
 
 
 def remove_facts(sc, b):
-    """[(path, inputs, text)] for regular files at or below the selected paths"""
+    """[(path, inputs, text)] for regular files at or below the selected paths.  `inbasis` / `changed` are
+    what the code reads: the records of the same `iter_changes(basis, include_unchanged, want_unversioned)`
+    call `remove` makes (a path no record names is treated as clean by `remove`); the harness's own
+    account of the state (`*_re`) is kept beside it"""
+    from breezy import osutils
     from breezy.tree import InterTree
     from breezy.workingtree import WorkingTree
     wt = WorkingTree.open(b["wt"].basedir)
@@ -377,15 +693,33 @@ def remove_facts(sc, b):
     with wt.lock_read():
         basis = wt.basis_tree()
         with basis.lock_read():
-            for p, text in sorted(all_files(wt.basedir, wt).items()):
+            files = all_files(wt.basedir, wt)
+            scope = sorted(set(sel) | {p for p in wt.all_versioned_paths() if any(p.startswith(s + "/") for s in sel)})
+            try:
+                recs = {c.path[1]: c for c in wt.iter_changes(basis, include_unchanged=True, require_versioned=False,
+                                                               want_unversioned=True, specific_files=scope) if c.path[1] is not None}
+                ic = True
+            except Exception:
+                recs, ic = {}, False
+            for p, text in sorted(files.items()):
                 if not any(p == s or p.startswith(s + "/") for s in sel):
                     continue
                 versioned = wt.is_versioned(p)
                 role = "s" if (p in sel or versioned) else "n"
                 bpath = InterTree.get(basis, wt).find_source_path(p) if versioned else None
-                inbasis = bpath is not None
-                changed = inbasis and (basis.kind(bpath) != "file" or basis.get_file_text(bpath).decode() != text)
-                out.append((p, dict(keep=sc["mode"] == "keep", force=sc["mode"] == "force", role=role, inbasis=inbasis, changed=changed), text))
+                inbasis_re = bpath is not None
+                changed_re = inbasis_re and (basis.kind(bpath) != "file" or basis.get_file_text(bpath).decode() != text)
+                c = recs.get(p)
+                if not ic or role == "n":
+                    inbasis, changed, source = inbasis_re, changed_re, "recomputed"
+                elif c is None:
+                    inbasis, changed, source = True, False, "not-reported"
+                else:
+                    inbasis = c.versioned[0] is not False
+                    changed = bool(c.changed_content and c.kind[1] is not None and osutils.is_inside_any(scope, c.path[1]))
+                    source = "iter_changes"
+                out.append((p, dict(keep=sc["mode"] == "keep", force=sc["mode"] == "force", role=role, wtversioned=versioned, inbasis=inbasis, changed=changed,
+                                    inbasis_re=inbasis_re, changed_re=changed_re, source=source), text))
     return out
 
 
@@ -421,14 +755,23 @@ def _run_scenario(seed_tuple):
         facts = [(p, {k: v for k, v in f.items() if k != "text"}, f["text"]) for p, f in revert_facts(sc, b)]
     elif sc["cmd"] == "remove":
         facts = remove_facts(sc, b)
+    links_before = all_links(wt.basedir, wt)
+    meta_before = meta_snapshot(wt.basedir, wt) if sc["cmd"] == "uncommit" else None
     err = run_command(sc, b)
     wt = WorkingTree.open(b["wt"].basedir)
+    touched = None
+    if meta_before is not None:
+        meta_after = meta_snapshot(wt.basedir, wt)
+        touched = sorted(k for k in set(meta_before) | set(meta_after) if meta_before.get(k) != meta_after.get(k))
     after = all_files(wt.basedir, wt)
+    links_after = all_links(wt.basedir, wt)
     with wt.lock_read():
         versioned_after = sorted(wt.all_versioned_paths())
-    res = dict(sc=sc, err=err, user=b["user"], before=before, after=after,
+    res = dict(sc=sc, err=err, user=b["user"], before=before, after=after, touched=touched,
+               links=b.get("links", {}), links_before=links_before, links_after=links_after,
                versioned_before=versioned_before, versioned_after=versioned_after,
-               facts=[(p, f, fate(p, t, before, after)) for p, f, t in facts], premerge_error=b.get("premerge_error"))
+               facts=[(p, f, fate(p, t, before, after, links_before, links_after)) for p, f, t in facts],
+               premerge_error=b.get("premerge_error"))
     dirs = set([b["main"].basedir, b["wt"].basedir])
     try:
         dirs.add(b["other"].user_transport.local_abspath("."))
@@ -587,10 +930,21 @@ def gen_sequence(seed_tuple):
             sc["edits"].append([f, rng.choice(["top", "bottom", "bottom", "whole"]) if f not in sc["mods"] else "bottom", tok()])
     sc["unknown"] = [["u0", "UNK-%s-%d" % (idx, 99)]] if rng.random() < 0.4 else []
     sc["final"] = rng.choice(SEQ_FINAL)
+    # second generator (the earlier fields keep their values): unknown files in the way of what the incoming
+    # revision adds, and inside a directory it deletes
+    rng2 = random.Random(repr(("ext",) + tuple(seed_tuple)))
+    sc["inway"] = [[a, "UNK-%s-%d" % (idx, 98), rng2.random() < 0.3] for a in sc["adds"] if rng2.random() < 0.7]
+    touched = [m[0] for m in moves] + [m[1] for m in moves] + sc["mods"] + (([m[0] for m in chain["moves"]] + chain["mods"]) if chain else [])
+    sc["rmdir"] = any(f.startswith("d/") for f in files) and not any(t.startswith("d/") for t in touched) and rng2.random() < 0.4
+    if sc["rmdir"]:
+        sc["edits"] = [e for e in sc["edits"] if not e[0].startswith("d/")]
+        sc["unknown"] = sc["unknown"] + [["d/uk", "UNK-%s-%d" % (idx, 97)]]
     return sc
 
 
-def _apply_incoming(main, root, moves, mods, adds, version):
+def _apply_incoming(main, root, moves, mods, adds, version, rmdir=False):
+    if rmdir and os.path.isdir(os.path.join(root, "d")):
+        main.remove(["d"], keep_files=False, force=True)
     for f in mods:
         if os.path.exists(os.path.join(root, f)):
             _write(root, f, open(os.path.join(root, f)).read().replace("L%d v" % version, "L%d inc v" % version))
@@ -670,6 +1024,12 @@ def _run_sequence(seed_tuple):
     for pth, token in sc["unknown"]:
         _write(wdir, pth, token + "\nunknown\n")
         tracked[token + "\nunknown\n"] = pth
+    for pth, token, moved_too in sc.get("inway", []):
+        _write(wdir, pth, token + "\nunknown in the way\n")
+        tracked[token + "\nunknown in the way\n"] = pth
+        if moved_too:
+            _write(wdir, pth + ".moved", token + "\nunknown .moved\n")
+            tracked[token + "\nunknown .moved\n"] = pth + ".moved"
     steps = []
     lost = []
 
@@ -717,8 +1077,16 @@ def _run_sequence(seed_tuple):
     path_now = {f: f for f in sc["files"]}
     for n, (moves, mods, adds) in enumerate(incoming):
         mods_now = [path_now.get(f, f) for f in mods]
-        _apply_incoming(main, root, moves, mods_now, adds, n + 2)
-        main.commit("rev%d" % (n + 2))
+        _apply_incoming(main, root, moves, mods_now, adds, n + 2, rmdir=(n == 0 and sc.get("rmdir")))
+        try:
+            main.commit("rev%d" % (n + 2))
+        except Exception as e:
+            if type(e).__name__ != "ConflictsInTree":
+                raise
+            # git: the conflicts of a lightweight checkout that was switched to this branch are listed for
+            # the branch's own tree too (shared common directory); not a matter of this property
+            main.set_conflicts([])
+            main.commit("rev%d" % (n + 2))
         for old, new in moves:
             for f0, cur in list(path_now.items()):
                 if cur == old:
@@ -751,6 +1119,7 @@ def _run_sequence(seed_tuple):
     edited_moved = [path_now[f] for f, _h, _t in sc["edits"] if path_now[f] != f and os.path.exists(os.path.join(wdir, path_now[f]))]
     target = edited_moved[0] if edited_moved else None
     before_final = snapshot()
+    links_before_final = all_links(wdir, WorkingTree.open(wdir))
     facts = []
     err = None
     w = WorkingTree.open(wdir)
@@ -773,7 +1142,8 @@ def _run_sequence(seed_tuple):
     steps.append(dict(cmd=final, err=err, target=target))
     account(len(steps), "merge-like" if final == "merge-other" else "exact", after)
     res = dict(sc=sc, steps=steps, lost=lost, mm=mmobs,
-               facts=[(pth, f, fate(pth, t, before_final, after)) for pth, f, t in facts] if err is None else [],
+               facts=[(pth, f, fate(pth, t, before_final, after, links_before_final, all_links(wdir, WorkingTree.open(wdir))))
+                      for pth, f, t in facts] if err is None else [],
                ntracked=len(sc["edits"]) + len(sc["unknown"]))
     for d in dirs:
         shutil.rmtree(d, ignore_errors=True)
@@ -790,11 +1160,18 @@ def check_sequence(ctx, res, flag):
     for st in res["steps"]:
         if st["err"]:
             ctx.count("error:seq:%s:%s" % (st["cmd"], st["err"].split(":")[0]))
+    for key in ("inway", "rmdir"):
+        if sc.get(key):
+            ctx.count("gen:seq:%s" % key)
     for l in res["lost"]:
         ctx.count("user-content:LOST")
-        ctx.violation(dict(cid, lost=l), "sequence %s: step %d (%s) discarded the user's content of %r (written before the sequence; "
+        stepcmd = res["steps"][l["step"] - 1]["cmd"]
+        fam = None
+        if sc["fmt"] == "git" and stepcmd in ("merge", "pull", "update", "switch") and any(l["origin"] == w[0] for w in sc.get("inway", [])):
+            fam = "git-unknown-file-overwritten-by-incoming-add"
+        ctx.violation(dict(cid, lost=l, inway=sc.get("inway")), "sequence %s: step %d (%s) discarded the user's content of %r (written before the sequence; "
                       "not in the tree, not in a backup or helper file afterwards): %r"
-                      % (" ; ".join(s["cmd"] for s in res["steps"]), l["step"], res["steps"][l["step"] - 1]["cmd"], l["origin"], l["text"]))
+                      % (" ; ".join(s["cmd"] for s in res["steps"]), l["step"], stepcmd, l["origin"], l["text"]), family=fam)
     cases, lines, impls = [], [], []
     for ob in res["mm"]:
         for pth, changed, added, only_moved, recorded in ob["facts"]:
@@ -804,11 +1181,148 @@ def check_sequence(ctx, res, flag):
             impls.append("recorded" if recorded else "absent")
     for pth, f, observed in res["facts"]:
         cases.append(dict(cid, path=pth, inputs=f))
-        lines.append("revert %s %s f %s %s %s %s %s %s" % (
-            TF(flag), TF(f["changed"]), TF(f["backups"]), KC[f["tkind"]], TF(f["tversioned"]),
+        lines.append("revert %s %s %s %s %s %s %s %s %s" % (
+            TF(flag), TF(f["changed"]), KC[f["wkind"]], TF(f["backups"]), KC[f["tkind"]], TF(f["tversioned"]),
             TF(f["mm"] is not None and f["mm"] == f["wsha"]), TF(f["bpresent"]), TF(f["bsha"] is not None and f["bsha"] == f["wsha"])))
         impls.append(observed)
     return cases, lines, impls
+
+
+# --------------------------------------------------------------------------
+# backup action on a real directory: tt._available_backup_name asked directly, then one real revert and
+# one real remove over many small directories with generated sibling names
+
+def gen_dir_cases(rng, n):
+    cases = []
+    for k in range(n):
+        name = rng.choice(["f", "f", "a.b", "x~", "f.~1~"])
+        ks = rng.sample(range(1, 9), rng.randint(0, 6))
+        if rng.random() < 0.5:
+            ks = list(range(1, rng.randint(1, 7)))        # a dense prefix: the loop has to walk it
+        sib = ["%s.~%d~" % (name, j) for j in ks] + rng.sample([name + ".~0~", name + ".~1", name + "~1~", "other.~1~", name + ".moved"], 2)
+        rng.shuffle(sib)
+        free = next(j for j in range(1, 20) if j not in ks)
+        cases.append(dict(k=k, name=name, mode=rng.choice(["revert", "revert", "remove"]),
+                          siblings=[[nm, "S%d_%d" % (k, j)] for j, nm in enumerate(sib)],
+                          ttnew=["%s.~%d~" % (name, free)] if rng.random() < 0.3 else []))
+    return cases
+
+
+def run_dir_cases(arg):
+    try:
+        return _run_dir_cases(arg)
+    except Exception as e:
+        import traceback
+        return dict(harness_error="%s: %s" % (type(e).__name__, traceback.format_exc()[-500:]))
+
+
+def _listing(root, sub):
+    out = {}
+    for nm in sorted(os.listdir(os.path.join(root, sub))):
+        full = os.path.join(root, sub, nm)
+        out[nm] = open(full).read() if os.path.isfile(full) and not os.path.islink(full) else "<%s>" % ("link" if os.path.islink(full) else "dir")
+    return out
+
+
+def _run_dir_cases(arg):
+    from breezy.workingtree import WorkingTree
+    fmt, cases = arg
+    wt = env.make_tree(fmt)
+    root = wt.basedir
+    for c in cases:
+        _write(root, "c%d/%s" % (c["k"], c["name"]), "B%d" % c["k"])
+    wt.smart_add([root])
+    with wt.lock_read():
+        ignored = [pth for pth in ("c%d/%s" % (c["k"], c["name"]) for c in cases) if not wt.is_versioned(pth)]
+    if ignored:
+        wt.add(ignored)             # names like `x~` match the default ignore rules
+    wt.commit("r1")
+    for c in cases:
+        _write(root, "c%d/%s" % (c["k"], c["name"]), "O%d" % c["k"])          # the user's edit
+        for nm, content in c["siblings"]:
+            _write(root, "c%d/%s" % (c["k"], nm), content)                      # unknown files beside it
+    out = {}
+    # (1) the transform's helper, asked directly (nothing is applied)
+    wt = WorkingTree.open(root)
+    with wt.lock_tree_write():
+        tt = wt.transform()
+        try:
+            for c in cases:
+                parent = tt.trans_id_tree_path("c%d" % c["k"])
+                for nm in c["ttnew"]:
+                    tt.new_file(nm, parent, [b"x"])
+                out[c["k"]] = dict(tt_name=tt._available_backup_name(c["name"], parent))
+        finally:
+            tt.finalize()
+    # (2) the controldir's helper (used by remove), asked directly
+    for c in cases:
+        out[c["k"]]["cd_name"] = wt.controldir._available_backup_name("c%d/%s" % (c["k"], c["name"]))
+    # (3) one real revert and one real remove
+    err = {}
+    wt = WorkingTree.open(root)
+    rv = ["c%d/%s" % (c["k"], c["name"]) for c in cases if c["mode"] == "revert"]
+    rm = ["c%d/%s" % (c["k"], c["name"]) for c in cases if c["mode"] == "remove"]
+    try:
+        if rv:
+            with wt.lock_tree_write():
+                wt.revert(filenames=rv, backups=True)
+    except Exception as e:
+        err["revert"] = type(e).__name__
+    try:
+        if rm:
+            WorkingTree.open(root).remove(rm, keep_files=False, force=False)
+    except Exception as e:
+        err["remove"] = type(e).__name__
+    for c in cases:
+        out[c["k"]]["after"] = _listing(root, "c%d" % c["k"])
+    shutil.rmtree(root, ignore_errors=True)
+    return dict(out=out, err=err)
+
+
+def check_dir_cases(ctx, fmt, cases, res):
+    cs, lines, impls = [], [], []
+    for e, name in res["err"].items():
+        ctx.count("error:dir-%s:%s" % (e, name))
+    for c in cases:
+        o = res["out"][c["k"]]
+        cid = dict(dir_case=dict(fmt=fmt, name=c["name"], mode=c["mode"], siblings=[x[0] for x in c["siblings"]], ttnew=c["ttnew"]))
+        ctx.case(cid, nontrivial=any(x[0].startswith(c["name"] + ".~") for x in c["siblings"]))
+        ctx.count("dir:%s:%s" % (fmt, c["mode"]))
+        taken = [c["name"]] + [x[0] for x in c["siblings"]]
+        # (1)/(2): the name the helpers pick, against the model
+        cs.append(dict(cid, asked="tt._available_backup_name"))
+        lines.append("backup %s %s" % (c["name"], ",".join(taken + c["ttnew"])))
+        impls.append(o["tt_name"])
+        cs.append(dict(cid, asked="controldir._available_backup_name"))
+        lines.append("backup %s %s" % (c["name"], ",".join(taken)))
+        impls.append(o["cd_name"].split("/", 1)[1] if o["cd_name"].startswith("c%d/" % c["k"]) else o["cd_name"])
+        if o["tt_name"] in taken + c["ttnew"] or o["cd_name"].split("/", 1)[-1] in taken:
+            ctx.violation(cid, "the backup-name helper returned an existing name: tt=%r controldir=%r taken=%r" % (o["tt_name"], o["cd_name"], taken + c["ttnew"]))
+        if res["err"].get(c["mode"]):
+            continue
+        # (3): the directory after the real command, against backupAndReplace / renameToBackup
+        before = [[c["name"], "O%d" % c["k"]]] + c["siblings"]
+        after = o["after"]
+        where = lambda content: next((nm for nm, t in sorted(after.items()) if t == content), "?")
+        ent = ",".join("%s=%s" % (nm, t) for nm, t in before)
+        if c["mode"] == "revert":
+            line = "dirbackup %s B%d %s" % (c["name"], c["k"], ent)
+            impl = ["%s=%s" % (c["name"], after.get(c["name"], "?"))] + ["%s=%s" % (where(t), t) for _n, t in before]
+            extra = len(after) - (len(before) + 1)
+        else:
+            line = "dirrename %s %s" % (c["name"], ent)
+            impl = ["%s=%s" % (where(t), t) for _n, t in before]
+            extra = len(after) - len(before)
+        if extra:
+            impl.append("UNEXPECTED-ENTRIES:%s" % "+".join(sorted(after)))
+        # oracle: nothing that was in the directory may be gone or overwritten
+        lost = [t for _n, t in before if t not in after.values()]
+        if lost:
+            ctx.violation(cid, "%s with backups lost or overwrote %r; directory before %r, after %r" % (c["mode"], lost, before, sorted(after.items())))
+        cs.append(dict(cid, asked="directory after " + c["mode"]))
+        lines.append(line)
+        impls.append(",".join(impl))
+    return cs, lines, impls
 
 
 # --------------------------------------------------------------------------
@@ -834,17 +1348,158 @@ def source_flag():
     raise ValueError("`if basis_path is None` not found in _alter_files")
 
 
+# translation of the `keep_content` decision and of the dispatch on the working file into Lean
+_ATOMS = {
+    "wt_kind == 'file'": "decide (i.wtKind = some Kind.file)",
+    "wt_kind == 'symlink'": "decide (i.wtKind = some Kind.symlink)",
+    "wt_kind == 'directory'": "decide (i.wtKind = some Kind.dir)",
+    "wt_kind is None": "i.wtKind.isNone", "wt_kind is not None": "i.wtKind.isSome",
+    "target_kind is None": "i.targetKind.isNone", "target_kind is not None": "i.targetKind.isSome",
+    "target_kind == 'file'": "decide (i.targetKind = some Kind.file)",
+    "backups": "i.backups", "target_versioned": "i.targetVersioned", "wt_versioned": "true",
+    "merge_modified.get(wt_path) != wt_sha1": "(!i.mergeModifiedIsWt)", "merge_modified.get(wt_path) == wt_sha1": "i.mergeModifiedIsWt",
+    "basis_path is None": "(!i.basisPresent)", "basis_path is not None": "i.basisPresent",
+    "wt_sha1 != basis_tree.get_file_sha1(basis_path)": "(!i.basisIsWt)", "wt_sha1 == basis_tree.get_file_sha1(basis_path)": "i.basisIsWt",
+    "basis_tree.get_file_sha1(basis_path) != wt_sha1": "(!i.basisIsWt)", "basis_tree.get_file_sha1(basis_path) == wt_sha1": "i.basisIsWt",
+}
+_IGNORED_TARGETS = {"wt_sha1", "basis_tree", "basis_inter", "basis_path"}
+
+
+class Shape(ValueError):
+    pass
+
+
+def _cond(t, keep=None):
+    if isinstance(t, ast.BoolOp):
+        op = " && " if isinstance(t.op, ast.And) else " || "
+        return "(" + op.join(_cond(v, keep) for v in t.values) + ")"
+    if isinstance(t, ast.UnaryOp) and isinstance(t.op, ast.Not):
+        return "(!" + _cond(t.operand, keep) + ")"
+    if isinstance(t, ast.Name) and t.id == "keep_content" and keep is not None:
+        return keep
+    src = ast.unparse(t)
+    if src in _ATOMS:
+        return _ATOMS[src]
+    raise Shape("condition not understood: %s" % src)
+
+
+def _assigns_keep(stmts):
+    return any(isinstance(n, ast.Assign) and any(getattr(t, "id", None) == "keep_content" for t in n.targets)
+               for st in stmts for n in ast.walk(st))
+
+
+def _keep_expr(stmts, v):
+    """symbolic value of `keep_content` after the statements, given its value `v` before"""
+    for st in stmts:
+        if isinstance(st, ast.Assign) and len(st.targets) == 1 and isinstance(st.targets[0], ast.Name):
+            name = st.targets[0].id
+            if name == "keep_content":
+                if not (isinstance(st.value, ast.Constant) and isinstance(st.value.value, bool)):
+                    raise Shape("keep_content = %s" % ast.unparse(st.value))
+                v = "true" if st.value.value else "false"
+            elif name not in _IGNORED_TARGETS:
+                raise Shape("assignment to %s" % name)
+        elif isinstance(st, ast.Expr) and ast.unparse(st).startswith("es.enter_context("):
+            pass
+        elif isinstance(st, ast.If):
+            if ast.unparse(st.test) == "basis_tree is None":
+                if _assigns_keep(st.body) or st.orelse:
+                    raise Shape("lazy basis_tree block touches keep_content")
+                continue
+            v = "(if %s then %s else %s)" % (_cond(st.test), _keep_expr(st.body, v), _keep_expr(st.orelse, v))
+        else:
+            raise Shape("statement not understood: %s" % ast.unparse(st)[:60])
+    return v
+
+
+def _action_expr(stmts):
+    """which RevertAction a block performs on the working file"""
+    if len(stmts) == 1 and isinstance(stmts[0], ast.If):
+        st = stmts[0]
+        return "(if %s then %s else %s)" % (_cond(st.test, keep="sourceKeepContent i"), _action_expr(st.body), _action_expr(st.orelse))
+    calls = {ast.unparse(n.func) for st in stmts for n in ast.walk(st) if isinstance(n, ast.Call)}
+    if not stmts:
+        return "RevertAction.keepInPlace"
+    if "tt.delete_contents" in calls and not ({"tt.adjust_path", "tt._available_backup_name"} & calls):
+        return "RevertAction.deleteContents"
+    if {"tt._available_backup_name", "tt.adjust_path", "tt.create_path"} <= calls and "tt.delete_contents" not in calls:
+        # the rename must go to the name the helper returned
+        ap = [n for st in stmts for n in ast.walk(st) if isinstance(n, ast.Call) and ast.unparse(n.func) == "tt.adjust_path"]
+        if [ast.unparse(x) for x in ap[0].args] != ["backup_name", "parent_trans_id", "trans_id"]:
+            raise Shape("adjust_path arguments: %s" % ast.unparse(ap[0]))
+        return "RevertAction.backupAndReplace"
+    raise Shape("action block not understood: %s" % sorted(calls))
+
+
+def source_decision():
+    """(Lean expression of keep_content, Lean expression of the action) read from _alter_files"""
+    tree = ast.parse(open(os.path.join(env.REPO, "breezy/transform.py")).read())
+    fn = next(n for n in tree.body if isinstance(n, ast.FunctionDef) and n.name == "_alter_files")
+    blk = next((n for n in ast.walk(fn) if isinstance(n, ast.If) and ast.unparse(n.test) == "change.changed_content"), None)
+    if blk is None:
+        raise Shape("`if change.changed_content:` not found")
+    idx = next((k for k, st in enumerate(blk.body) if isinstance(st, ast.If) and ast.unparse(st.test) == "wt_kind is not None"), None)
+    if idx is None:
+        raise Shape("`if wt_kind is not None:` not found")
+    first = blk.body[0]
+    if not (isinstance(first, ast.Assign) and ast.unparse(first) == "keep_content = False"):
+        raise Shape("block does not start with keep_content = False")
+    keep = _keep_expr(blk.body[:idx], "false")
+    act_if = blk.body[idx]
+    if act_if.orelse or _assigns_keep(blk.body[idx:]):
+        raise Shape("unexpected else / later assignment of keep_content")
+    action = "(if !i.changedContent then RevertAction.nothing else if i.wtKind.isSome then %s else RevertAction.nothing)" % _action_expr(act_if.body)
+    return keep, action
+
+
 def extract(ctx):
     sys.path.insert(0, os.path.join(env.VERIF, "tools"))
     import extract as ex
-    flag = source_flag()
+    note = ""
+    try:
+        flag = source_flag()
+    except Exception as e:
+        flag, note = True, "flag: %s; " % e
+    try:
+        keep, action = source_decision()
+    except Exception as e:
+        # the source no longer has the shape the translator understands: emit a definition the T1
+        # theorems cannot be proved for, so that the run reports the broken tie
+        keep, action = "false", "RevertAction.nothing"
+        note += "UNTRANSLATABLE (%s: %s)" % (type(e).__name__, e)
     text = ("-- GENERATED by harness/checks/c12.py from breezy/transform.py:_alter_files — do not edit\n"
             "import BreezyVerif.Model.C12\nnamespace BreezyVerif.C12\n"
             "/-- does `_alter_files` keep the content of a working file whose id is absent from the basis whenever it may? -/\n"
-            "def sourceFlags : Flags := { keepWhenNoBasis := %s }\nend BreezyVerif.C12\n" % ("true" if flag else "false"))
+            "def sourceFlags : Flags := { keepWhenNoBasis := %s }\n"
+            "/-- the value of `keep_content` computed by the statements of `_alter_files` (translated from the AST)%s -/\n"
+            "def sourceKeepContent (i : RevertIn) : Bool :=\n  %s\n"
+            "/-- what `_alter_files` does with the working file of a changed entry (translated from the AST) -/\n"
+            "def sourceRevertAction (i : RevertIn) : RevertAction :=\n  %s\n"
+            "end BreezyVerif.C12\n" % ("true" if flag else "false", (" — " + note.replace("-/", "- /")) if note else "", keep, action))
     ex.write_if_changed(os.path.join(env.VERIF, "lean/BreezyVerif/Generated/C12.lean"), text)
     ctx.extra["keepWhenNoBasis"] = flag
-    return "keepWhenNoBasis=%s" % flag
+    ctx.extra["t1_keep_content"] = keep
+    return "keepWhenNoBasis=%s; keep_content and action translated%s" % (flag, (" [" + note + "]") if note else "")
+
+
+def remove_variant():
+    """does the deletion step of InventoryWorkingTree.remove itself refuse to delete a path that is not
+    versioned (`f in files_to_backup or (not fid and not force)`)?  Read from the source."""
+    tree = ast.parse(open(os.path.join(env.REPO, "breezy/bzr/workingtree.py")).read())
+    fn = next(n for n in ast.walk(tree) if isinstance(n, ast.FunctionDef) and n.name == "remove")
+    tests = [ast.unparse(n.test) for n in ast.walk(fn) if isinstance(n, ast.If) and "files_to_backup" in ast.unparse(n.test)]
+    if not tests:
+        raise ValueError("`if f in files_to_backup` not found in InventoryWorkingTree.remove")
+    return any("not fid" in t for t in tests)
+
+
+def _remove_variant(ctx):
+    if "remove_backs_up_unversioned" not in ctx.extra:
+        try:
+            ctx.extra["remove_backs_up_unversioned"] = remove_variant()
+        except Exception:
+            ctx.extra["remove_backs_up_unversioned"] = False
+    return ctx.extra["remove_backs_up_unversioned"]
 
 
 def _flag(ctx):
@@ -869,9 +1524,48 @@ def _tokens(text):
 
 
 def _family(sc, path, fact):
-    """no known-finding family: the one defect found here (revert deleting a file whose id is absent
-    from the basis, without backup) was repaired by a fix: commit and is a plain violation if it returns"""
+    """known-finding families, computed from the concrete scenario and the lost path.  (The first defect found
+    here - revert deleting a file whose id is absent from the basis, without backup - was repaired by a fix:
+    commit and is a plain violation if it returns.)"""
+    cmd, fmt = sc["cmd"], sc["fmt"]
+    if fmt == "git" and cmd in ("merge", "pull", "update", "switch") and any(path == w[0] for w in sc.get("inway", [])):
+        # git tree: an unversioned file at a path the incoming revision adds is overwritten by the merge
+        return "git-unknown-file-overwritten-by-incoming-add"
+    if fmt == "git" and cmd in ("merge", "pull", "update", "switch") \
+            and any(op in ("rm-unknown", "mv-unknown") and f == path for op, f, _t in sc.get("local_ops", [])):
+        # git tree: the same mechanism, other trigger: the path is not versioned in THIS any more (removed or
+        # renamed away), an unknown file is there, and the incoming revision touches the entry of that path
+        return "git-unknown-file-at-unversioned-path-deleted-by-merge"
+    if fmt != "git" and cmd == "remove" and sc.get("mode") == "safe" \
+            and any(op == "rm-unknown" and f == path for op, f, _t in sc.get("local_ops", [])) \
+            and any(path == s or path.startswith(s + "/") for s in sc.get("select") or []):
+        # bzr tree: an unknown file at a path that is removed in the working tree but still in the basis is
+        # not reported by iter_changes(want_unversioned=True); remove deletes it without backup
+        return "bzr-remove-deletes-unknown-file-at-removed-path"
     return None
+
+
+def _expected_error(sc, res):
+    """exception classes the command is documented to raise for this scenario"""
+    cmd, name = sc["cmd"], res["err"].split(":")[0]
+    if cmd == "revert" and name == "PathsNotVersionedError":
+        return any(s not in res["versioned_before"] for s in sc["select"] or [])
+    if cmd == "uncommit" and name == "LocalRequiresBoundBranch":
+        return bool(sc.get("unc", {}).get("local")) and sc.get("unc", {}).get("layout") != "bound"
+    return False
+
+
+def _note_error(ctx, sc, res):
+    name = res["err"].split(":")[0]
+    ctx.count("error:%s:%s" % (sc["cmd"], name))
+    if not _expected_error(sc, res):
+        # the command refused with an exception that is not part of its interface (an internal error);
+        # not a loss by itself - the content oracle below still runs on what it left behind
+        ctx.count("unexpected-exception:%s:%s:%s" % (sc["fmt"], sc["cmd"], name))
+        lst = ctx.extra.setdefault("unexpected_exceptions", [])
+        if len(lst) < 12:
+            lst.append(dict(id=sc["id"], cmd=sc["cmd"], exception=name, trace=res["err"][-220:],
+                            local_ops=sc.get("local_ops"), premerge=sc.get("premerge")))
 
 
 def check_scenario(ctx, res, flag):
@@ -883,11 +1577,23 @@ def check_scenario(ctx, res, flag):
     ctx.case(dict(sc=sc), nontrivial=bool(in_scope) or (cmd in MERGE_LIKE + ("uncommit",) and bool(res["user"])))
     ctx.count("cmd:%s:%s" % (sc["fmt"], cmd))
     if res["err"]:
-        ctx.count("error:%s:%s" % (cmd, res["err"].split(":")[0]))
+        _note_error(ctx, sc, res)
+    for key in ("inway", "unknown_deep", "local_ops"):
+        for x in sc.get(key) or []:
+            ctx.count("gen:%s%s" % (key, ":" + x[0] if key == "local_ops" else ""))
     # ---- oracle
     if cmd == "uncommit":
-        if res["before"] != res["after"]:
+        unc = sc.get("unc") or {}
+        cid["uncommit_options"] = unc
+        ctx.count("uncommit:%s%s%s%s" % (unc.get("layout"), ":revno=%s" % unc.get("revno"), ":dry" if unc.get("dry_run") else "", ":local" if unc.get("local") else ""))
+        if res["before"] != res["after"] or res["links_before"] != res["links_after"]:
             ctx.violation(cid, "uncommit changed working tree files: %r" % sorted(set(res["before"].items()) ^ set(res["after"].items()))[:3])
+        elif res.get("touched"):
+            # read-only guard: no entry below the tree root outside the control directory was written,
+            # chmod-ed, renamed, created or removed (inode, size, mtime, ctime of every entry)
+            ctx.violation(cid, "uncommit touched working tree entries (same bytes, but inode / mtime / ctime changed): %r" % res["touched"][:5])
+        else:
+            ctx.count("uncommit:tree-untouched")
         return [], [], []
     after_texts = list(res["after"].values())
     for p, text in sorted(res["user"].items()):
@@ -913,13 +1619,24 @@ def check_scenario(ctx, res, flag):
     cases, lines, impls = [], [], []
     for p, f, observed in res["facts"]:
         if cmd == "revert":
-            line = "revert %s %s f %s %s %s %s %s %s" % (
-                TF(flag), TF(f["changed"]), TF(f["backups"]), KC[f["tkind"]], TF(f["tversioned"]),
+            line = "revert %s %s %s %s %s %s %s %s %s" % (
+                TF(flag), TF(f["changed"]), KC[f["wkind"]], TF(f["backups"]), KC[f["tkind"]], TF(f["tversioned"]),
                 TF(f["mm"] is not None and f["mm"] == f["wsha"]), TF(f["bpresent"]), TF(f["bsha"] is not None and f["bsha"] == f["wsha"]))
             ctx.count("revert-branch:%s" % ("unchanged" if not f["changed"] else "no-basis" if not f["bpresent"] else "modified" if f["bsha"] != f["wsha"] else "clean"))
+            ctx.count("revert-wtkind:%s" % KC[f["wkind"]])
+            ctx.count("revert-changed-from:%s%s" % (f["source"], "" if f["changed"] == f["changed_re"] else ":differs-from-recomputation"))
         else:
-            line = "remove %s %s %s %s %s" % (TF(f["keep"]), TF(f["force"]), f["role"], TF(f["inbasis"]), TF(f["changed"]))
+            line = "remove %s %s %s %s %s %s %s" % (TF(_remove_variant(ctx) and sc["fmt"] != "git"), TF(f["keep"]), TF(f["force"]), f["role"],
+                                                     TF(f["wtversioned"]), TF(f["inbasis"]), TF(f["changed"]))
             ctx.count("remove-branch:%s:%s" % (sc["mode"], f["role"]))
+            unsafe_re, unsafe = (not f["inbasis_re"]) or f["changed_re"], (not f["inbasis"]) or f["changed"]
+            ctx.count("remove-inputs-from:%s%s" % (f["source"], "" if unsafe == unsafe_re else ":differs-from-recomputation"))
+            if unsafe != unsafe_re:
+                # the attributes `remove` reads misdescribe the file (the decision is right for what it is told)
+                lst = ctx.extra.setdefault("remove_inputs_misdescribe_state", [])
+                if len(lst) < 8:
+                    lst.append(dict(id=sc["id"], path=p, code_reads=dict(inbasis=f["inbasis"], changed=f["changed"], source=f["source"]),
+                                    state=dict(inbasis=f["inbasis_re"], changed=f["changed_re"])))
         if res["err"]:
             continue        # the command refused to run (e.g. a selected path is not versioned): nothing to compare
         cases.append(dict(cid, path=p, inputs=f))
@@ -997,6 +1714,15 @@ def run(ctx, n=None):
         cases.append(dict(backup=base, taken=sorted(taken)))
         lines.append("backup %s %s" % (base, ",".join(taken) or "-"))
         impls.append(got)
+    # ---- S2b the backup action on real directories
+    dcases = {fmt: gen_dir_cases(rng, ctx.pick(30, 200)) for fmt in ("2a", "git")}
+    for (fmt, dc), r in zip(sorted(dcases.items()), ctx.pmap(run_dir_cases, sorted(dcases.items()))):
+        if "harness_error" in r:
+            ctx.count("harness-error:dir:" + r["harness_error"].split(":")[0])
+            ctx.extra.setdefault("harness_errors", []).append(dict(id=["dir", fmt], error=r["harness_error"][-300:]))
+            continue
+        c, l, i = check_dir_cases(ctx, fmt, dc, r)
+        cases += c; lines += l; impls += i
     # ---- S3 merge content decision
     mcases = []
     k = 0
@@ -1022,6 +1748,10 @@ def run(ctx, n=None):
         cases.append(dict(merge=mc))
         lines.append("merge %s %s %s %s %s" % (TF(r["this_changed"]), TF(r["other_changed"]), TF(r["other_deleted"]), TF(r["same"]), TF(r["text_conflict"])))
         impls.append(r["fate"])
+    fams = {}
+    for v in ctx.violations:
+        fams[str(v["family"])] = fams.get(str(v["family"]), 0) + 1
+    ctx.extra["violation_families"] = fams
     if lines and ctx.model_available:
         ctx.diff(cases, lines, impls)
 
@@ -1044,13 +1774,23 @@ def replay(ctx, case):
         res = run_scenario(tuple(case["id"]))
         c, l, i = check_scenario(ctx, res, flag)
         m = ctx.model(l) if l else []
-        return dict(case=case, options={k: res["sc"].get(k) for k in ("backups", "old", "select", "mode", "premerge", "edits", "readd", "added", "unknown")},
-                    error=res["err"], impl=i, model=m, per_file=[(x["path"], x["inputs"]) for x in c],
+        return dict(case=case, options={k: res["sc"].get(k) for k in ("backups", "old", "select", "mode", "premerge", "edits", "readd", "added", "unknown", "inway", "unknown_deep", "local_ops",
+                                                       "other_add", "other_add2", "other_deldir", "main_add", "main_deldir", "rev3_add", "rev3_deldir", "unc")},
+                    error=res["err"], impl=i, model=m, per_file=[(x["path"], x["inputs"]) for x in c], uncommit_touched=res.get("touched"),
                     oracle_failures=[dict(what=v["what"], family=v["family"]) for v in ctx.violations])
     if "merge" in case:
         r = run_merge_case(case["merge"])
         line = "merge %s %s %s %s %s" % (TF(r["this_changed"]), TF(r["other_changed"]), TF(r["other_deleted"]), TF(r["same"]), TF(r["text_conflict"]))
         return dict(case=case, impl=r["fate"], model=ctx.model([line])[0])
+    if "dir_case" in case:
+        d = case["dir_case"]
+        c = dict(k=0, name=d["name"], mode=d["mode"], siblings=[[nm, "S0_%d" % j] for j, nm in enumerate(d["siblings"])], ttnew=d["ttnew"])
+        r = run_dir_cases((d["fmt"], [c]))
+        if "harness_error" in r:
+            return dict(case=case, error=r["harness_error"])
+        cs, l, i = check_dir_cases(ctx, d["fmt"], [c], r)
+        return dict(case=case, lines=l, impl=i, model=ctx.model(l), errors=r["err"],
+                    oracle_failures=[dict(what=v["what"], family=v["family"]) for v in ctx.violations])
     if "backup" in case:
         from breezy import osutils
         got = osutils.available_backup_name(case["backup"], lambda nme: nme in case["taken"])
